@@ -32,7 +32,7 @@ if os.path.isdir(bd):
         if os.path.exists(os.path.join(bd,name,'patch.diff')):
             items.append((name, 'benign', '-', os.path.join(bd,name,'patch.diff'), None))
 if klass != 'all': items = [x for x in items if x[1] == klass]
-if only: items = [x for x in items if x[0] == only]
+if only: items = [x for x in items if x[0] == only or (only.endswith('*') and x[0].startswith(only[:-1]))]
 
 def run(item):
     mid, d, prop, patch, exp = item
